@@ -321,6 +321,9 @@ func init() {
 			for _, n := range []int{1, 5, 15} {
 				it = append(it, Item{PkgKey: "root", Func: "VerifC03_PHYFOpts", Shape: []int{mt, 3, n}}) // FPort > 0, empty FRMPayload
 			}
+			for _, n := range []int{1, 16, 17} {
+				it = append(it, Item{PkgKey: "root", Func: "VerifC03_PHYFRMNoPort", Shape: []int{mt, n}})
+			}
 		}
 		return it
 	})
